@@ -178,3 +178,30 @@ Theorem c14_notification_reply_leak :
             we_msg := [106; 58; 32; 91; 45; 51; 50; 55; 48; 48; 93; 32; 112]%N; we_data := [] |}.
 Proof. exact notify_reply_leak. Qed.
 Print Assumptions c14_notification_reply_leak.
+
+(* -- cancelling the request does not replace the error its handler returns ----------------------- *)
+
+Theorem c14_cancellation_does_not_replace_error : forall cs r e, call_ctx true cs r e = call r e.
+Proof. exact cancellation_does_not_replace_error. Qed.
+Print Assumptions c14_cancellation_does_not_replace_error.
+
+Theorem c14_error_verbatim_when_cancelled : forall cs r c m d d',
+  c <> Cancelled -> c <> DeadlineExceeded -> valid_utf8 m = true -> wire_data d = Some d' ->
+  call_ctx true cs r (EJrpc c m d) = OErr (EJrpc c m d').
+Proof. exact error_verbatim_ctx. Qed.
+Print Assumptions c14_error_verbatim_when_cancelled.
+
+Theorem c14_code_preserved_when_cancelled : forall cs r e,
+  is_nil e = false -> code_dom e = true -> outcome_code (call_ctx true cs r e) = Some (error_code e).
+Proof. exact code_preserved_ctx. Qed.
+Print Assumptions c14_code_preserved_when_cancelled.
+
+Theorem c14_cancellation_refuted_if_replaced :
+  let e := EJrpc 7 [109]%N [49]%N in
+  (forall r, call_ctx false CtxCanceled r e = OErr ECanceled) /\
+  (forall r, call_ctx false CtxDeadline r e = OErr EDeadline) /\
+  (forall r, outcome_code (call_ctx false CtxCanceled r e) <> Some (error_code e)) /\
+  (forall cs r, call_ctx false cs r enil = call r enil) /\
+  (forall r e', call_ctx false CtxLive r e' = call r e').
+Proof. exact cancellation_refuted_if_replaced. Qed.
+Print Assumptions c14_cancellation_refuted_if_replaced.
